@@ -27,13 +27,13 @@ from .world import SYMCONST
 ISO = ("1-H-1,1.5(1),x,10.5(2)\n1-H-2,2.25(10)#,x,10.5(2)\n1-H-3,3.5(1),,10.5(2)\n2-He-3,3.25(1),x,4.5(1)\n2-He-4,4.25(1),x,4.5(1)\n"
        "4-Be-9,9.5(1),x,9.5(1)\n26-Fe-54,54.5,x,55.5(3)\n26-Fe-56,[56.5],,55.5(3)\n29-Cu-63,63.5(1),x,63.75(3)\n"
        "54-Xe-132,131.5(1),x,131.25(6)\n62-Sm-149,148.5(1),x,150.5(2)\n63-Eu-151,150.5(1),x,151.75(1)\n"
-       "71-Lu-175,174.5(1),x,174.75(1)\n71-Lu-176,175.5(1),x,174.75(1)")
+       "71-Lu-175,174.5(1),x,174.75(1)\n71-Lu-176,175.5(1),x,174.75(1)\n44-Ru-96,95.5(1),x,101.25(2)\n80-Hg-196,195.5(1),x,200.5(2)")
 ELM = "1\tH\thydrogen\t  [1.25,1.75]\tm\n26\tFe\tiron\t 55.75(5)  [55.1,55.9] g r"
 ABU = "1\tH\thydrogen\n    1\t[0.7,0.8]\tm\n    2\t0.25(1)\n26\tFe\tiron\n    54\t0.06(1)\n    56\t0.9(2)"
 DENS = {"H": (sp.Rational(1, 2), "T"), "He": sp.Rational(1, 8), "Be": sp.Rational(7, 4), "Fe": sp.Rational(15, 2), "Cu": sp.Rational(9),
         "Xe": sp.Rational(3), "Sm": sp.Rational(7), "Eu": sp.Rational(5), "Lu": sp.Rational(10), "n": None, "Po": None, "V": sp.Rational(6),
         "Mn": sp.Rational(7), "Mo": sp.Rational(10), "Y": sp.Rational(4), "Co": sp.Rational(9), "C": sp.Rational(2), "Ag": sp.Rational(10),
-        "Li": sp.Rational(1, 2)}
+        "Li": sp.Rational(1, 2), "Ru": sp.Rational(12), "Hg": sp.Rational(13)}
 ACT_ROW = "\t".join(['"Fe"', "101", "26", "Fe", "56", "Fe-56", "91.5", "Fe-57m", "1.5", "h", "m", "11.5", "act", "n", "14.5", "15.5", "16.5",
                      "1.5", "1.5 h", "", "", "", '"note"\n'])
 
